@@ -310,11 +310,19 @@ class Env:
         self.connected0 = len(self.gates) if connected0 is None else connected0
         for g in self.gates[:self.connected0]:
             g.set()
-        self.connect_task = asyncio.ensure_future(self.atv.connect())
-        await asyncio.sleep(0)
-        await self.settle(self.connected0)
         if all(g.is_set() for g in self.gates):
-            await self.finish_connect()
+            # nothing left to wait for: connect() runs through (same code path, no scheduling needed)
+            self.connect_task = asyncio.get_event_loop().create_future()
+            try:
+                await self.atv.connect()
+                self.connect_task.set_result(None)
+            except Exception as ex:
+                self.connect_task.set_result(None)
+                self.escaped.append("connect:" + type(ex).__name__)
+        else:
+            self.connect_task = asyncio.ensure_future(self.atv.connect())
+            await asyncio.sleep(0)
+            await self.settle(self.connected0)
         atv = self.atv
         # the objects a user may hold on to: index = shielded-object number of the table
         names = self.shared["table"]["objects"]
@@ -785,7 +793,7 @@ def exhaustive_cases(shared, ctx):
         (3, [L5, L4, L4, L4], [], [[(1, ("c",)), (0, ()), (2, ("l0",))]], "a"),
         (3, [L4, 3, 3, 3], [top], [[(0, ()), (1, ("c",)), (1, ("c",))]], "a"),
         # the application assigns atv.listener again (None / same object / new object) at every position
-        (1, [L5, 3, 3, 3], ["L0", "L1", "L2"], [[(0, ("c",))]], "a"),
+        (1, [ctx.scale(4, 6), 3, 3, 3], ["L0", "L1", "L2"], [[(0, ("c",))]], "a"),
         (2, [L4, 3, 0, 0], [held, "L1", "L2"], [[(1, ("c",)), (0, ())]], "a"),
         (3, [L4, 0, 0, 0], ["L2", "L0"], [[(1, ("c",)), (0, ()), (2, ("l0",))]], "n"),
         # … and push_updater.listener
@@ -805,8 +813,8 @@ def exhaustive_cases(shared, ctx):
                             count += 1
                             yield {"listener": lmode, "protos": pcfg,
                                    "reporters": DEFAULT_REPORTERS[:n], "events": ["s"] + with_probes(seq, probes),
-                                   "probe": 3, "sweep": length <= 3 or count % 4 == 0,
-                                   "drop": length <= 2 or count % 8 == 0}
+                                   "probe": 3, "sweep": length <= 3 or count % 5 == 0,
+                                   "drop": length <= 2 or count % 10 == 0}
     # events DURING FacadeAppleTV.connect(): only the first protocol is registered when the history
     # starts, `c` lets the next one finish connecting; the history ends with the remaining ones
     # completing, the sweep follows.  And push_updater.start() calls that fail half-way (`sF`),
@@ -1178,7 +1186,7 @@ def run(ctx, only=None):
             import multiprocessing
             import sys
 
-            pool = multiprocessing.get_context("fork").Pool(ctx.scale(3, 4), _worker_init, (sys.path[0],))
+            pool = multiprocessing.get_context("fork").Pool(ctx.scale(4, 4), _worker_init, (sys.path[0],))
             shared["pool"] = pool
         except Exception:
             pool = None
